@@ -2,7 +2,86 @@
 import numpy as np
 from fractions import Fraction
 from itertools import product
-from common import F, rs, vs, ms, dyadic, close, call, parse_rat
+from math import gcd
+from functools import reduce
+from common import F, rs, vs, ms, dyadic, close, call, parse_rat, as_given
+
+ARR = ("same", "int", "fortran", "strided")   # these functions take ndarrays (they call .astype / compare with >=): no python lists
+
+
+def given(rv, x, R, tag):
+    """another legitimate ndarray representation of the same values; never the harness's own buffer (a callee that
+    writes into its argument must not change what the model is asked about)"""
+    y = as_given(rv, x, R, tag, kinds=ARR)
+    return y.copy(order="K") if np.shares_memory(y, x) else y
+
+
+def flat_cloud(rv, d):
+    """non-negative clouds with MORE points than dimensions that lie in a lower-dimensional flat (exact dyadic coordinates,
+    so exactly rank-deficient): captures of fewer sources than receptors, a face of the lattice, an affine image of a
+    lower-dimensional cloud, collinear points. Returns (P, kind) or (None, None)."""
+    for _ in range(12):
+        kind = str(rv.choice(["sources", "lattice-face", "affine", "collinear"]))
+        if kind == "sources":      # captures B = W A + baseline of s < d sources at on/half/off intensities
+            s = int(rv.integers(1, d))
+            levels = [0.0, 1.0] if (2 ** s > d + 1 and rv.integers(2)) else [0.0, 0.5, 1.0]
+            W = np.array(list(product(levels, repeat=s)))
+            A = dyadic(rv, 0, 2, 3, size=(s, d))
+            P = W @ A + (dyadic(rv, 0, 1, 3, size=d) if rv.integers(2) else 0.0)
+            nsel = int(rv.integers(d + 1, len(P) + 1)) if len(P) > d + 1 else len(P)
+            P = P[np.sort(rv.permutation(len(P))[:nsel])]
+        elif kind == "lattice-face":
+            pts = np.array(list(product([0.0, 1.0, 2.0], repeat=d)))
+            if d >= 3 and rv.integers(2):
+                pts = pts[pts[:, 0] == pts[:, 1]]
+            else:
+                pts = pts[pts[:, int(rv.integers(d))] == float(rv.integers(3))]
+            nsel = int(rv.integers(d + 1, len(pts) + 1)) if len(pts) > d + 1 else len(pts)
+            P = pts[rv.permutation(len(pts))[:nsel]]
+        elif kind == "affine":
+            r = int(rv.integers(1, d))
+            Z = dyadic(rv, 0, 2, 2, size=(int(rv.integers(d + 1, d + 8)), r))
+            P = Z @ dyadic(rv, 0, 2, 2, size=(r, d)) + dyadic(rv, 0, 1, 2, size=d)
+        else:
+            t = rv.permutation(17)[: int(rv.integers(d + 1, d + 5))] / 8.0
+            P = dyadic(rv, 0, 2, 2, size=d) + t[:, None] * dyadic(rv, 0, 2, 2, size=d)
+        P = np.ascontiguousarray(P, dtype=np.float64)
+        sums = P.sum(1)
+        if P.shape[0] > d and np.linalg.matrix_rank(P - P[0]) < d and sums.max() - sums.min() >= 0.5:
+            return P, kind
+    return None, None
+
+
+def integer_facets(P, hull):
+    """the facet equations of a whole-number cloud as one would write them by hand: integer normal and offset with gcd 1
+    (x + y - 3 <= 0), one row per facet. None if they cannot be confirmed to describe the same half-spaces as qhull's rows."""
+    d = P.shape[1]
+    rows = set()
+    for simp, q in zip(hull.simplices, hull.equations):
+        V = P[simp]
+        E = V[1:] - V[0]
+        nrm = np.array([(-1) ** j * int(round(np.linalg.det(np.delete(E, j, axis=1)))) if d > 1 else 1 for j in range(d)], dtype=object)
+        if not any(int(v) != 0 for v in nrm):
+            return None
+        if float(np.dot(nrm.astype(float), q[:-1])) < 0:
+            nrm = -nrm
+        g = reduce(gcd, [abs(int(v)) for v in nrm])
+        nrm = [int(v) // g for v in nrm]
+        rows.add(tuple(nrm) + (-sum(a * int(b) for a, b in zip(nrm, V[0])),))
+    E = np.array(sorted(rows), dtype=np.float64)
+    U = E / np.linalg.norm(E[:, :-1], axis=1, keepdims=True)
+    for q in hull.equations:
+        if np.min(np.max(np.abs(U - q), axis=1)) > 1e-9:
+            return None
+    for u in U:
+        if np.min(np.max(np.abs(hull.equations - u), axis=1)) > 1e-9:
+            return None
+    return E
+
+
+def rescale_rows(rv, eq):
+    """the same half-spaces with every row multiplied by its own positive factor (exact dyadic factors)"""
+    return eq * dyadic(rv, 0.125, 8, 3, size=(len(eq), 1))
 
 
 def cloud(rng, d, kind):
@@ -34,12 +113,19 @@ def run(R):
     from quadprog import solve_qp
     n = 60 if R.tier == "quick" else 800
     R.rule = ("point clouds in 2-5 dimensions (random dyadic, lattice with many coplanar points, simplices with sharp corners, "
-              "fewer points than dimensions for the slice); query points inside, outside and beyond corners; plane levels across "
-              "the admissible range. Nearest point: a Lagrange-dual certificate (multipliers from an auxiliary quadprog call, "
-              "evaluated exactly by the Lean projDual; theorem nearest_of_cert => nearest against every hull point). Boundary "
+              "fewer points than dimensions for the slice; for the slice also FLAT clouds with more points than dimensions: captures "
+              "of fewer sources than receptors, a face of the lattice, affine images of lower-dimensional clouds, collinear points); "
+              "query points inside, outside and beyond corners; plane levels across the admissible range. The hull handed to "
+              "proj_B_to_hull / alpha_for_B_with_P is described by qhull's unit-normal rows, by the same rows each multiplied by its "
+              "own positive factor, by rows in the convention n.x <= 1, or by hand-written integer rows (gcd 1) of a whole-number "
+              "cloud: all describe the same half-spaces. Arrays reach the implementation as given / integer dtype (whole values) / "
+              "Fortran order / strided view; the model receives the values. Nearest point: a Lagrange-dual certificate (multipliers "
+              "from an auxiliary quadprog call on the same rows, "
+              "evaluated exactly by the Lean projDual; theorem nearest_of_cert => nearest against every hull point; facet "
+              "violations are measured relative to the row norm). Boundary "
               "hit: exact model alphaFor. Slice: exact model on the all-pairs branch; on the hull-edge branch every returned "
               "point must be an exact segment/plane intersection and every all-pairs intersection must lie in their hull. "
-              "Non-trivial: dimension >= 3 or a lattice/simplex cloud.")
+              "Non-trivial: dimension >= 3 or a lattice/simplex/flat cloud.")
     jobs = []
     for k in range(n):
         if not R.want(k):
@@ -51,13 +137,38 @@ def run(R):
         c = dict(k=k, what=what, dim=d, cloud_kind=ckind)
         R.count("what:" + what); R.count("cloud:" + ckind); R.count("dim:%d" % d)
         nontriv = (k,) if (d >= 3 or ckind != "random") else None
+        rv = R.rng(2, k)      # stream of the representation / description variants (the base cases keep their values)
         if what in ("nearest", "alpha"):
             P = cloud(rng, d, ckind)
+            # how the hull is described: qhull's unit-normal rows | the same rows, each times its own positive factor |
+            # rows in the convention n.x <= 1 (origin moved inside) | hand-written integer rows of a whole-number cloud
+            ekind = str(rv.choice(["qhull", "qhull", "rescaled", "unit-offset", "integer"]))
+            if ekind == "integer" and ckind != "lattice":
+                P = rv.integers(0, 5, size=(int(rv.integers(d + 2, d + 12)), d)).astype(np.float64)
             try:
                 hull = ConvexHull(P)
             except Exception:  # noqa: BLE001
                 P = cloud(rng, d, "random"); hull = ConvexHull(P)
+            if ekind == "unit-offset":
+                P0 = P - np.round(P[hull.vertices].mean(0) * 8) / 8
+                h0 = ConvexHull(P0)
+                if np.all(h0.equations[:, -1] < -1e-3):
+                    P, hull = P0, h0
+                else:
+                    ekind = "rescaled"
             eq = hull.equations.copy()
+            if ekind == "integer":
+                eqi = integer_facets(P, hull) if np.all(P == np.round(P)) else None
+                if eqi is None:
+                    ekind = "rescaled"
+                else:
+                    eq = eqi
+            if ekind == "rescaled":
+                eq = rescale_rows(rv, eq)
+            elif ekind == "unit-offset":
+                eq = eq / (-eq[:, -1:])
+            c.update(equations_kind=ekind)
+            R.count("%s-equations:%s" % (what, ekind))
             centre = P[hull.vertices].mean(0)
             c.update(P=P)
             if what == "nearest":
@@ -65,8 +176,10 @@ def run(R):
                 Q = np.vstack([centre + (P[rng.integers(len(P), size=3)] - centre) * dyadic(rng, 0.125, 0.875, 3, size=(3, 1)),      # inside
                                centre + (P[rng.integers(len(P), size=4)] - centre) * dyadic(rng, 1.5, 4, 2, size=(4, 1)),          # outside, beyond vertices
                                centre + dyadic(rng, -2, 2, 2, size=(3, d)) * ext])
+                if ekind == "integer" and rv.integers(2):
+                    Q = np.round(Q)          # whole-number queries (may be handed in with an integer dtype)
                 c.update(B=Q, equations=eq)
-                st, out = call(dreye.proj_B_to_hull, Q.copy(), eq.copy())
+                st, out = call(dreye.proj_B_to_hull, given(rv, Q, R, "B"), given(rv, eq, R, "equations"))
                 G = -(-eq[:, :-1]); h = -eq[:, -1]          # n.z + o <= 0   <=>   G z <= h  with G = n, h = -o
                 lams = []
                 for q in Q:
@@ -78,13 +191,17 @@ def run(R):
                 if st == "ok":
                     for i, q in enumerate(Q):
                         R.driver.ask("n%d_%d" % (k, i), "projdual", d, ms(G), vs(h), vs(q), vs(lams[i]), vs(np.asarray(out)[i]))
-                jobs.append((c, nontriv, st, out, dict(G=G, h=h, Q=Q, ext=ext)))
+                rown = max(1.0, float(np.max(np.linalg.norm(G, axis=1))))   # facet values are distances times the row norm
+                jobs.append((c, nontriv, st, out, dict(G=G, h=h, Q=Q, ext=ext, rown=rown)))
             else:
                 eq0 = eq.copy(); eq0[:, -1] = eq[:, -1] + eq[:, :-1] @ centre     # translate so that the origin (centre) is strictly inside
                 Bv = np.vstack([dyadic(rng, -2, 2, 3, size=(5, d)), (P[:3] - centre)])
                 Bv = Bv[np.abs(Bv).sum(1) > 0]
                 c.update(B=Bv, equations=eq0)
-                st, out = call(lambda: (dreye.alpha_for_B_with_P(Bv.copy(), eq0.copy()), dreye.B_with_P(Bv.copy(), eq0.copy())))
+                Bi, Ei = given(rv, Bv, R, "B"), given(rv, eq0, R, "equations")
+                st, out = call(lambda: (dreye.alpha_for_B_with_P(Bi, Ei), dreye.B_with_P(Bi, Ei)))
+                if not (np.array_equal(np.asarray(Bi, dtype=float), Bv) and np.array_equal(np.asarray(Ei, dtype=float), eq0)):
+                    R.failA(dict(c), "frame condition: alpha_for_B_with_P / B_with_P changed an argument in place")
                 for i, b in enumerate(Bv):
                     R.driver.ask("a%d_%d" % (k, i), "alpha", ms(eq0), vs(b))
                 jobs.append((c, nontriv, st, out, dict(Bv=Bv, eq0=eq0)))
@@ -94,6 +211,11 @@ def run(R):
                 P = dyadic(rng, 0, 4, 3, size=(int(rng.integers(2, d + 1)), d))
             else:
                 P = np.abs(cloud(rng, d, ckind))
+            flat = None
+            if not few and rv.integers(5) < 2:
+                Pf, flat = flat_cloud(rv, d)
+                if Pf is not None:
+                    P = Pf
             sums = P.sum(1)
             if sums.max() - sums.min() < 0.5:
                 P[0] = 0.0; sums = P.sum(1)
@@ -101,10 +223,13 @@ def run(R):
             cval = float(sums.min() + lev * (sums.max() - sums.min()))
             if cval <= 0:
                 cval = float(sums.max()) / 2
-            c.update(P=P, c=cval, few_points=few)
+            c.update(P=P, c=cval, few_points=few, flat=flat)
             R.count("slice:%s" % ("all-pairs" if P.shape[0] <= P.shape[1] else "hull-edges"))
-            st, out = call(dreye.proj_P_to_simplex, P.copy(), cval)
+            R.count("slice-cloud:%s" % ("few-points" if few else ("flat:" + flat if flat else "full-dimensional")))
+            if flat:
+                nontriv = (k,)
             R.driver.ask("s%d" % k, "section", ms(P), rs(cval))
+            st, out = call(dreye.proj_P_to_simplex, given(rv, P, R, "P"), cval)
             jobs.append((c, nontriv, st, out, dict(P=P, cval=cval)))
     R.driver.run()
     for c, nontriv, st, out, X in jobs:
@@ -122,7 +247,7 @@ def run(R):
                 gap = float(half - dv)
                 ok = lamok and gap <= 1e-9 * ext * ext + 1e-12
                 R.cert(ok)
-                if float(viol) > 1e-9 * ext:
+                if float(viol) > 1e-9 * ext * X["rown"]:
                     R.failB(dict(c, query=q, impl=out[i]), "projected point violates a facet inequality by %.3g" % float(viol), sig + ":outside-hull")
                 elif inside[i] and np.max(np.abs(out[i] - q)) > 1e-9 * ext:
                     R.failB(dict(c, query=q, impl=out[i]), "a point inside the hull was moved by the projection", sig + ":inside-moved")
